@@ -228,7 +228,7 @@ pub fn corpus_c09(tier: Tier, seed: u64) -> Vec<Decl> {
     let mut out: Vec<Decl> = Vec::new();
     let mut bases: Vec<Layout> = Vec::new();
     // seeds of perturbation: random rule-valid layouts of every shape and kind, and systematic ones
-    let n = tier.pick(220usize, 2400usize);
+    let n = tier.pick(500usize, 3000usize);
     let mut p = Profile::general();
     p.kinds = [3, 6, 4, 2, 1, 1, 1];
     p.shapes = [5, 3, 2, 2];
